@@ -404,6 +404,108 @@ theorem value_repr_shows_unit (cls val : Str) (q : Quantity) :
     ∧ arrayRepr cls val q = cls ++ [40] ++ q.qtype ++ [44, 32] ++ val ++ [44, 32] ++ q.unit ++ [41] := by
   simp [scalarRepr, scalarReprTail, valueStr, formattedSuffix, arrayRepr, arrayReprHead, arrayReprTail]
 
+/-! ### products, quotients, powers: the strings of a result are decided by the factors of the OPERANDS
+
+`opQ` is `a * b` / `a / b` on Quantities, Scalars and Arrays (the quantity of the result): its entry list is
+computed from the entry lists of the two operands (`opEntries`: `_MatchQuantities`, the merge loop, the removal of
+cancelled factors) and handed to `ObtainQuantity(dict)`; no earlier result takes part (the check runs histories on
+one shared database with a warm cache against this). -/
+
+/-- the strings of a product / quotient are those of the entry list built from the operands, and its unit string
+parses back to exactly the joined factors of that list -/
+theorem product_strings_from_operands (reg : Reg) (op : NewOp) (q1 q2 r : Quantity)
+    (h : opQ reg op q1 q2 = .ok r) :
+    ∃ es, opEntries reg op q1.entries q2.entries = .ok es ∧ obtainFromDict reg es = .ok r ∧ r.entries = es
+      ∧ (r.derived = true → (∀ e ∈ es, atomic e.unit = true) →
+          parseUnit r.unit = some (nums (joinedUnits es) ++ dens (joinedUnits es))) := by
+  unfold opQ at h
+  split at h
+  · cases h
+  · rename_i es hes
+    refine ⟨es, hes, h, obtainFromDict_entries reg es r h, ?_⟩
+    intro hd hat
+    exact (unit_string_roundtrip reg es r h hd hat).2
+
+/-- **the order of the factors**: the merge loop keeps every category of the left operand in its place and
+appends the categories only the right operand has, in the right operand's order (first occurrence) -/
+theorem product_factor_order (f : Int → Int → Int) (a b m : List Entry) (h : mergeAll f a b = .ok m) :
+    cats m = cats a ++ dedupFrom (cats a) (cats b) :=
+  cats_mergeAll f a b m h
+
+/-- **`Quantity ** n` is the n-fold product** `q * (q * (... * q))` (`n - 1` multiplications; none for `n ≤ 1`:
+the code returns `q` itself for the exponents 1, 0 and below) -/
+theorem quantity_pow_eq_iterated_mul (reg : Reg) (q : Quantity) (n : Int) :
+    qpow reg q n = nfoldProduct reg q (n - 1).toNat := by
+  unfold qpow
+  rw [qpowLoop_eq, nfoldProduct_eq]
+
+/-- matching the units is idempotent: once the operands' units are matched (one unit per quantity type, the first
+one seen), a further pass with the same dict changes nothing — the units of a result are stable under further
+multiplication by the same operands -/
+theorem matching_idempotent (reg : Reg) (es : List Entry) (used used' : List (Str × Str)) (es' : List Entry)
+    (h : matchOne reg used es = .ok (used', es')) : matchOne reg used' es' = .ok (used', es') :=
+  matchOne_idem reg es used used' es' h
+
+/-- **the unit string of a power**: for a quantity whose units are matched (a matching pass changes nothing),
+with distinct categories and no cancelling factor, `q ** n` (n ≥ 2) holds `q`'s entries with every exponent
+multiplied by `n`, and its unit string renders `q`'s joined factors with the exponents multiplied by `n` -/
+theorem pow_unit_string (reg : Reg) (q : Quantity) (n : Int) (used : List (Str × Str)) (hn : 2 ≤ n)
+    (hm : matchOne reg [] q.entries = .ok (used, q.entries))
+    (hnd : (q.entries.map (·.cat)).Nodup)
+    (hkeep : ∀ e ∈ q.entries, e.exp ≠ 0 ∧ unitTotal e.unit q.entries ≠ 0) :
+    ∃ r, qpow reg q n = .ok r ∧ r.entries = scaleEntries n q.entries ∧ r.derived = true
+      ∧ r.unit = renderUnit ((joinedUnits q.entries).map (fun p => (p.1, p.2 * n))) := by
+  obtain ⟨k, hk⟩ : ∃ k : Nat, (n - 1).toNat = k + 1 := ⟨(n - 1).toNat - 1, by omega⟩
+  have hm' := matchOne_idem reg q.entries [] used q.entries hm
+  have hloop := qpowLoop_scaled reg q used used hm hm' hnd hkeep k q 1 (by omega) (scaleEntries_one q.entries).symm
+  have hn' : (1 : Int) + (k : Int) + 1 = n := by omega
+  rw [hn'] at hloop
+  obtain ⟨r, hr⟩ := newDerived_scaled_ok reg q used n hm
+  obtain ⟨h1, h2, h3⟩ := newDerived_entries reg _ r hr
+  refine ⟨r, ?_, h1, h2, ?_⟩
+  · unfold qpow
+    rw [hk, hloop, hr]
+  · rw [h3, joinedUnits_scale]
+
+/-- and parsing that unit string recovers the base's joined factors with the exponents multiplied by `n` -/
+theorem pow_unit_string_parses (reg : Reg) (q : Quantity) (n : Int) (used : List (Str × Str)) (hn : 2 ≤ n)
+    (hm : matchOne reg [] q.entries = .ok (used, q.entries))
+    (hnd : (q.entries.map (·.cat)).Nodup)
+    (hkeep : ∀ e ∈ q.entries, e.exp ≠ 0 ∧ unitTotal e.unit q.entries ≠ 0)
+    (hat : ∀ e ∈ q.entries, atomic e.unit = true) :
+    ∃ r, qpow reg q n = .ok r ∧
+      parseUnit r.unit = some (nums ((joinedUnits q.entries).map (fun p => (p.1, p.2 * n)))
+                                ++ dens ((joinedUnits q.entries).map (fun p => (p.1, p.2 * n)))) := by
+  obtain ⟨r, h1, _h2, _h3, h4⟩ := pow_unit_string reg q n used hn hm hnd hkeep
+  refine ⟨r, h1, ?_⟩
+  rw [h4]
+  apply parse_render
+  intro p hp
+  obtain ⟨p0, hp0, rfl⟩ := List.mem_map.mp hp
+  have hk : p0.1 ∈ keys (joinedUnits q.entries) := List.mem_map.mpr ⟨p0, hp0, rfl⟩
+  unfold joinedUnits at hk
+  rw [joined_keys] at hk
+  obtain ⟨pu, hpu, hpe⟩ := List.mem_map.mp hk
+  obtain ⟨e, he, rfl⟩ := List.mem_map.mp hpu
+  simp only at hpe ⊢
+  rw [← hpe]
+  exact hat e he
+
+/-- under the hypotheses of `pow_unit_string`, `Scalar ** n` (result * self) and `Quantity ** n` (self * result)
+build the same quantity, for every integer exponent -/
+theorem scalar_pow_eq_quantity_pow (reg : Reg) (q : Quantity) (n : Int) (used : List (Str × Str))
+    (hm : matchOne reg [] q.entries = .ok (used, q.entries))
+    (hnd : (q.entries.map (·.cat)).Nodup)
+    (hkeep : ∀ e ∈ q.entries, e.exp ≠ 0 ∧ unitTotal e.unit q.entries ≠ 0) :
+    spow reg q n = qpow reg q n := by
+  unfold spow qpow
+  cases hk : (n - 1).toNat with
+  | zero => rfl
+  | succ k =>
+    rw [spowLoop_scaled reg q used hm hnd hkeep k q 1 (by omega) (scaleEntries_one q.entries).symm,
+      qpowLoop_scaled reg q used used hm (matchOne_idem reg q.entries [] used q.entries hm) hnd hkeep k q 1 (by omega)
+        (scaleEntries_one q.entries).symm]
+
 /-! ### non-vacuity: concrete instances, among them the shape the test-suite never had (two and
 three factors after the slash) -/
 
